@@ -314,3 +314,17 @@ Definition writeout_merge (out : path) (pages : list (path * str)) (f : fsmap) :
 
 (* the part of a file system below [out] *)
 Definition restrict (out : path) (f : fsmap) : fsmap := filter (fun kv => prefixb out (fst kv)) f.
+
+(* ------------------------------------------------------------------ the source set of a run *)
+
+(* find_all_files: the files below the source directory that are not below an excluded directory.
+   ProjectSettings.__post_init__ puts the output directory of the project file among the excluded
+   directories, parse_arguments the one that is finally used. *)
+Definition sources (src : path) (excl : list path) (f : fsmap) : fsmap :=
+  filter (fun kv => prefixb src (fst kv) && negb (existsb (fun e => prefixb e (fst kv)) excl)) f.
+
+(* a whole run as a function of the file system it starts from: the pages are computed ([render], any
+   function) from the source files found, then written *)
+Definition rerun (render : fsmap -> list (path * str)) (src : path) (excl : list path) (out : path)
+                 (f : fsmap) : fsmap :=
+  writeout out (render (sources src excl f)) f.
